@@ -297,28 +297,40 @@ LeafAlt(d, j) ==
     [] d.k = "nil" -> IF j = 1 THEN LP \o RP ELSE LP \o SP \o RP
     [] d.k = "bytes" -> U8 \o Join([i \in 1..Len(d.bs) |-> DecOf(d.bs[i])], IF j = 1 THEN SP ELSE NL) \o RP
 
-\* separators of the second family: a line comment, a block comment, a datum comment
-Sep2(i) == CASE i % 3 = 1 -> T(<<" ",";"," ","c">>) \o NL
+\* separators of the second family: a line comment that follows the element WITHOUT a blank
+\* (";" is a delimiter), a block comment, a datum comment
+Sep2(i) == CASE i % 3 = 1 -> T(<<";"," ","c">>) \o NL
              [] i % 3 = 2 -> T(<<" ","#","|","c","|","#"," ">>)
              [] i % 3 = 0 -> T(<<" ","#",";","0"," ">>)
 RECURSIVE Join2(_, _)
 Join2(ss, i) == IF Len(ss) = 1 THEN ss[1] ELSE ss[1] \o Sep2(i) \o Join2(Tail(ss), i + 1)
 
-RECURSIVE Alt(_, _)
-Alt(d, j) ==
+\* Alt(d, 1): shorthands everywhere, compact dotted lists.
+\* Alt(d, 2): comments as separators, fully dotted one-element lists, and quotation forms that
+\*            alternate between the shorthand and the long form: `(unquote x), (quote 'x) ...
+\*            (AltQ's flag says whether the enclosing form was written long).
+RECURSIVE Alt(_, _), AltQ(_, _)
+AltQ(d, long) ==
   IF d.k = "pair" THEN
-       IF j = 1 THEN
-            IF IsQuoteForm(d) THEN Shorthand[QuoteKindOf(d)] \o Alt(d.d.a, 1)               \*  'x `x ,x ,@x
-            ELSE LP \o Join([i \in 1..Len(Elems(d)) |-> Alt(Elems(d)[i], 1)], SP)           \*  (a b . c)
-                    \o (IF IsList(d) THEN << >> ELSE T(<<" ","."," ">>) \o Alt(LastCdr(d), 1)) \o RP
-       ELSE IF Len(Elems(d)) >= 2                                                            \*  comments
-            THEN LP \o Join2([i \in 1..Len(Elems(d)) |-> Alt(Elems(d)[i], 2)], 1)
-                    \o (IF IsList(d) THEN << >> ELSE T(<<" ","."," ">>) \o Alt(LastCdr(d), 2)) \o RP
-            ELSE LP \o Alt(d.a, 2) \o T(<<" ","."," ">>) \o Alt(d.d, 2) \o RP                \*  (a . ())
+       IF IsQuoteForm(d) /\ long THEN Shorthand[QuoteKindOf(d)] \o AltQ(d.d.a, FALSE)
+       ELSE IF IsQuoteForm(d)
+            THEN LP \o QuoteNames[QuoteKindOf(d)] \o Sep2(2) \o AltQ(d.d.a, TRUE) \o RP       \*  (unquote #|c|# x)
+       ELSE IF Len(Elems(d)) >= 2
+            THEN LP \o Join2([i \in 1..Len(Elems(d)) |-> AltQ(Elems(d)[i], TRUE)], 1)
+                    \o (IF IsList(d) THEN << >> ELSE T(<<" ","."," ">>) \o AltQ(LastCdr(d), TRUE)) \o RP
+            ELSE LP \o AltQ(d.a, TRUE) \o T(<<" ","."," ">>) \o AltQ(d.d, TRUE) \o RP                 \*  (a . ())
   ELSE IF d.k = "vec" THEN
-       IF j = 1 \/ Len(d.es) = 0 THEN <<35, 40>> \o Join([i \in 1..Len(d.es) |-> Alt(d.es[i], j)], SP) \o RP
-       ELSE <<35, 40>> \o Join2([i \in 1..Len(d.es) |-> Alt(d.es[i], 2)], 2) \o RP
-  ELSE LeafAlt(d, j)
+       IF Len(d.es) = 0 THEN <<35, 40>> \o RP
+       ELSE <<35, 40>> \o Join2([i \in 1..Len(d.es) |-> AltQ(d.es[i], TRUE)], 2) \o RP
+  ELSE LeafAlt(d, 2)
+Alt(d, j) ==
+  IF j = 2 THEN AltQ(d, TRUE)
+  ELSE IF d.k = "pair" THEN
+       IF IsQuoteForm(d) THEN Shorthand[QuoteKindOf(d)] \o Alt(d.d.a, 1)                 \*  'x `x ,x ,@x
+       ELSE LP \o Join([i \in 1..Len(Elems(d)) |-> Alt(Elems(d)[i], 1)], SP)             \*  (a b . c)
+               \o (IF IsList(d) THEN << >> ELSE T(<<" ","."," ">>) \o Alt(LastCdr(d), 1)) \o RP
+  ELSE IF d.k = "vec" THEN <<35, 40>> \o Join([i \in 1..Len(d.es) |-> Alt(d.es[i], 1)], SP) \o RP
+  ELSE LeafAlt(d, 1)
 
 -----------------------------------------------------------------------------
 (* Reader-free constructor expressions (ASCII Scheme source as TLA+ string) *)
@@ -339,6 +351,9 @@ Neg(neg, s) == IF neg THEN "(- " \o s \o ")" ELSE s
 RECURSIVE Pow10(_)
 Pow10(n) == IF n = 0 THEN << 1 >> ELSE Pow10(n - 1) \o <<0>>
 
+\* a string from its code points, without a string literal
+MkStr(cs) == "(list->string (map integer->char (list" \o (IF cs = << >> THEN "" ELSE " " \o CodeArgs(cs)) \o ")))"
+
 RECURSIVE Ctor(_)
 Ctor(d) ==
   CASE d.k = "int" -> Neg(d.neg, NatCtor(d.ds))
@@ -348,8 +363,8 @@ Ctor(d) ==
     [] d.k = "inf" -> Neg(d.neg, "(/ (exact->inexact 1) (exact->inexact 0))")
     [] d.k = "bool" -> IF d.b THEN "(= 0 0)" ELSE "(= 0 1)"
     [] d.k = "char" -> "(integer->char " \o ToString(d.c) \o ")"
-    [] d.k = "str" -> "(c12s@@" \o (IF d.cs = << >> THEN "" ELSE " " \o CodeArgs(d.cs)) \o ")"
-    [] d.k = "sym" -> "(string->symbol (c12s@@" \o (IF d.nm = << >> THEN "" ELSE " " \o CodeArgs(d.nm)) \o "))"
+    [] d.k = "str" -> MkStr(d.cs)
+    [] d.k = "sym" -> "(string->symbol " \o MkStr(d.nm) \o ")"
     [] d.k = "nil" -> "(list)"
     [] d.k = "bytes" -> "(bytevector" \o (IF d.bs = << >> THEN "" ELSE " " \o CodeArgs(d.bs)) \o ")"
     [] d.k = "vec" -> "(vector" \o SCat([i \in 1..Len(d.es) |-> " " \o Ctor(d.es[i])]) \o ")"
@@ -490,45 +505,41 @@ TypeOK == /\ nodes \in 0..NODES
 \* the text of a code sequence as a Scheme list of integers: "(40 41)"
 CodeList(cs) == "(" \o CodeArgs(cs) \o ")"
 
-\* helper definitions evaluated at the start of every case (the replayer replaces @@)
-Prelude ==
-  "(define (c12w@@ d) (let ((p (open-output-string))) (write d p) (get-output-string p))) "
-  \o "(define (c12s@@ . cs) (list->string (map integer->char cs))) "
-  \o "(define (c12c@@ s) (map char->integer (string->list s))) "
-  \o "(define (c12r@@ s) (read (open-input-string s))) "
-  \o "(define (c12left@@) (eof-object? (c12r@@ (c12s@@)))) "
-
-\* a symbol whose bars an implementation might omit leaves text behind in a reader that
-\* buffers: such round trips are run on an engine of their own
-RECURSIVE Risky(_)
-Risky(d) == CASE d.k = "sym" -> NeedsBars(d.nm)
-              [] d.k = "pair" -> Risky(d.a) \/ Risky(d.d)
-              [] d.k = "vec" -> \E i \in 1..Len(d.es) : Risky(d.es[i])
-              [] OTHER -> FALSE
+\* Scheme phrases (all inline: a case needs no definitions)
+Written(x) == "(let ((p (open-output-string))) (write " \o x \o " p) (get-output-string p))"   \* write to a string
+CodesOf(x) == "(map char->integer (string->list " \o x \o "))"
+ReadOf(x)  == "(read (open-input-string " \o x \o "))"
+NothingLeft == "(eof-object? " \o ReadOf(MkStr(<< >>)) \o ")"    \* a fresh empty port gives eof
 
 \* src is a sequence of pieces: a TLA+ string (ASCII) or a text (sequence of code points)
 ReadStep(name, d, text) ==
   [name |-> name, reads |-> TRUE,
-   src |-> <<"(let ((d2 (c12r@@ (c12s@@ " \o CodeArgs(text) \o ")))) (emit (equal? " \o Ctor(d)
-             \o " d2)) (emit (c12left@@)) d2)">>,
+   src |-> <<"(let ((d2 " \o ReadOf(MkStr(text)) \o ")) (emit (equal? " \o Ctor(d)
+             \o " d2)) (emit " \o NothingLeft \o ") d2)">>,
    emit |-> <<"#true", "#true">>]
 QuoteStep(name, d, text) ==
   [name |-> name, reads |-> FALSE,
    src |-> <<"(emit (equal? " \o Ctor(d) \o " (quote ", text, ")))">>,
    emit |-> <<"#true">>]
 
+\* number of quotation forms in a datum (tiers sample the data with two or more of them)
+RECURSIVE QCount(_)
+QCount(d) == CASE d.k = "pair" -> (IF IsQuoteForm(d) THEN 1 ELSE 0) + QCount(d.a) + QCount(d.d)
+               [] d.k = "vec" -> IF d.es = << >> THEN 0 ELSE QCount(d.es[1]) + (IF Len(d.es) > 1 THEN QCount(d.es[2]) ELSE 0)
+               [] OTHER -> 0
+
 CaseOf(d) ==
-  [kind |-> "datum", nodes |-> nodes, risky |-> Risky(d), prelude |-> Prelude,
+  [kind |-> "datum", nodes |-> nodes, qn |-> QCount(d),
    ctor |-> Ctor(d), ext |-> Ext(d), alt1 |-> Alt(d, 1), alt2 |-> Alt(d, 2),
    steps |-> <<
      \* (4) the written text is the external representation
      [name |-> "w", reads |-> FALSE,
-      src |-> <<"(emit (c12c@@ (c12w@@ " \o Ctor(d) \o ")))">>,
+      src |-> <<"(emit " \o CodesOf(Written(Ctor(d))) \o ")">>,
       emit |-> <<CodeList(Ext(d))>>],
      \* (1)-(3) write, read back: equal, nothing left in the reader, and written the same again
      [name |-> "rt", reads |-> TRUE,
-      src |-> <<"(let* ((d " \o Ctor(d) \o ") (t (c12w@@ d)) (d2 (c12r@@ t))) (emit (equal? d d2)) "
-                \o "(emit (c12left@@)) (emit (if (eof-object? d2) 0 (equal? t (c12w@@ d2)))) (list t d2))">>,
+      src |-> <<"(let* ((d " \o Ctor(d) \o ") (t " \o Written("d") \o ") (d2 " \o ReadOf("t") \o ")) (emit (equal? d d2)) "
+                \o "(emit " \o NothingLeft \o ") (emit (if (eof-object? d2) 0 (equal? t " \o Written("d2") \o "))) (list t d2))">>,
       emit |-> <<"#true", "#true", "#true">>],
      \* reading the spec's texts at run time gives the datum
      ReadStep("rd-ext", d, Ext(d)), ReadStep("rd-alt1", d, Alt(d, 1)), ReadStep("rd-alt2", d, Alt(d, 2)),
